@@ -254,28 +254,42 @@ def replay_available():
 
 
 def run_replay(prop, tier, out_json, seed, scratch, mode="check"):
-    """runs the replay crate's bounded check / counterexample search for a property.
-    returns dict or None when the crate has nothing for this property"""
+    """runs the replay crate's bounded check / counterexample search for a property (real API,
+    rebuilt from /repo's current sources by cargo's own change detection)."""
     if not replay_available():
         return None
-    target = os.environ.get("VERIF_TARGET_DIR") or os.path.join(scratch, "replay-target")
+    target = os.environ.get("VERIF_TARGET_DIR") or os.path.join(VERIF, ".cache", "replay-target")
+    os.makedirs(target, exist_ok=True)
     env = dict(os.environ)
     env["CARGO_NET_OFFLINE"] = "true"
     env["CARGO_TARGET_DIR"] = target
-    env["RUSTFLAGS"] = (env.get("RUSTFLAGS", "") + " --cfg json_syntax_verif").strip()
-    cmd = ["cargo", "run", "--offline", "--release", "--quiet", "--manifest-path", os.path.join(VERIF, "replay", "Cargo.toml"), "--", mode, prop, "--tier", tier, "--seed", str(seed), "--out", out_json]
+    manifest = os.path.join(VERIF, "replay", "Cargo.toml")
+    if REPO != "/repo":
+        # scratch copy of the crate pointing at the alternative repository
+        work = os.path.join(scratch, "replay-crate")
+        if not os.path.exists(work):
+            shutil.copytree(os.path.join(VERIF, "replay"), work, ignore=shutil.ignore_patterns("target"))
+            ct = open(os.path.join(work, "Cargo.toml")).read().replace('path = "/repo"', 'path = "%s"' % REPO)
+            open(os.path.join(work, "Cargo.toml"), "w").write(ct)
+        manifest = os.path.join(work, "Cargo.toml")
+        env["CARGO_TARGET_DIR"] = os.path.join(scratch, "replay-target")
+    build = subprocess.run(["cargo", "build", "--offline", "--release", "--quiet", "--manifest-path", manifest], capture_output=True, text=True, env=env, timeout=3600)
+    if build.returncode != 0:
+        raise NoVerdict("the replay crate does not build against the current /repo (API changed?): %s" % build.stderr[-2000:])
+    exe = os.path.join(env["CARGO_TARGET_DIR"], "release", "verif-replay")
+    cmd = [exe, mode, prop, "--tier", tier, "--seed", str(seed), "--out", out_json]
     t0 = time.time()
     p = subprocess.run(cmd, capture_output=True, text=True, env=env, timeout=7200)
     wall = time.time() - t0
     if p.returncode not in (0, 1):
-        raise NoVerdict("replay crate failed to build/run for %s: %s" % (prop, (p.stderr or p.stdout)[-2500:]))
+        raise NoVerdict("replay binary failed for %s (rc=%s): %s" % (prop, p.returncode, (p.stderr or p.stdout)[-2500:]))
     try:
         with open(out_json) as f:
             js = json.load(f)
     except Exception as e:
         raise NoVerdict("replay crate wrote no result for %s: %s\n%s" % (prop, e, p.stderr[-1500:]))
     js["wall"] = wall
-    js["cmd"] = " ".join(cmd)
+    js["cmd"] = "cargo build --release --manifest-path replay/Cargo.toml && verif-replay %s %s --tier %s --seed %s" % (mode, prop, tier, seed)
     return js
 
 
@@ -504,6 +518,8 @@ def _check(prop, cfg, tier, seed, scratch, t0):
         path = os.path.join(VERIF, "replays", "%s-%s.json" % (prop, ts))
         with open(path, "w") as f:
             json.dump({"property": prop, "failed_obligations": [v for (_k, v, _c) in new_viol], "counterexample": cex, "how_to_replay": "./check %s --replay %s" % (prop, path)}, f, indent=1)
+        if cex:
+            log("FAILING INPUT (real API): check=%s input=%s detail=%s" % (cex.get("check"), cex.get("input"), str(cex.get("detail"))[:600]))
         suffix = "" if cex else " no-failing-input-found"
         for (_k, v, _c) in new_viol:
             log("FAILED OBLIGATION: %s\n%s" % (v["obligation"], v["verifier_output"][:1500]))
